@@ -283,12 +283,12 @@ def depthOrig (fuel : Nat) (op : Op) (frags : List Frag) (vars : Vars) : Except 
 
 /-- the loop over `doc.definitions`; result: (index of the operation among the operations, depth)
     for every reported error, in order. -/
-def ruleLoop (depthOf : Op → Except Err Nat) (limit : Nat) (filter : Option String) :
+def ruleLoop (depthOf : Nat → Op → Except Err Nat) (limit : Nat) (filter : Option String) :
     Nat → List Op → Except Err (List (Nat × Nat))
   | _, [] => .ok []
   | i, op :: rest =>
     if opSelected filter op then
-      match depthOf op with
+      match depthOf i op with
       | .error e => .error e
       | .ok d =>
         match ruleLoop depthOf limit filter (i + 1) rest with
@@ -299,7 +299,7 @@ def ruleLoop (depthOf : Op → Except Err Nat) (limit : Nat) (filter : Option St
 /-- `MaxDepthValidationRule(limit, operation_name=filter)(schema, doc, vars)` on the unchanged tree. -/
 def ruleOrig (fuel limit : Nat) (filter : Option String) (doc : Doc) (vars : Vars) :
     Except Err (List (Nat × Nat)) :=
-  ruleLoop (fun op => depthOrig fuel op doc.frags vars) limit filter 0 doc.ops
+  ruleLoop (fun _ op => depthOrig fuel op doc.frags vars) limit filter 0 doc.ops
 
 /-! #### after proposed_fixes/C19-Q1.patch -/
 
@@ -326,7 +326,41 @@ def depthFixed (fuel : Nat) (op : Op) (frags : List Frag) (vars : Vars) : Except
 
 def rule (fuel limit : Nat) (filter : Option String) (doc : Doc) (vars : Vars) :
     Except Err (List (Nat × Nat)) :=
-  ruleLoop (fun op => depthFixed fuel op doc.frags vars) limit filter 0 doc.ops
+  ruleLoop (fun _ op => depthFixed fuel op doc.frags vars) limit filter 0 doc.ops
+
+/-! #### after proposed_fixes/C19-Q1vars.patch: variables coerced per operation -/
+
+/-- a variable definition of an operation, as far as `@skip/@include` can see it (Boolean variables):
+    `$name: Boolean[!] [= default]` -/
+structure VarDef where
+  name : String
+  nonNull : Bool
+  default : Option Bool
+  deriving Repr, DecidableEq, Inhabited
+
+/-- `coerce_variable_values(schema, op, variables)` on Boolean variables: `none` = `VariablesCoercionError`
+    (a required variable without default is missing); extra variables are filtered out. -/
+def coerceVariableValues : List VarDef → Vars → Option Vars
+  | [], _ => some []
+  | d :: ds, vars =>
+    match coerceVariableValues ds vars with
+    | none => none
+    | some rest =>
+      match vars.lookup d.name with
+      | some b => some ((d.name, b) :: rest)
+      | none =>
+        match d.default with
+        | some v => some ((d.name, v) :: rest)
+        | none => if d.nonNull then none else some rest
+
+/-- `try: op_variables = coerce_variable_values(...) except VariablesCoercionError: op_variables = variables` -/
+def effectiveVars (defs : List VarDef) (vars : Vars) : Vars :=
+  (coerceVariableValues defs vars).getD vars
+
+/-- the rule after C19-Q1vars.patch; `defs[i]` = variable definitions of the i-th operation -/
+def ruleV (fuel limit : Nat) (filter : Option String) (doc : Doc) (defs : List (List VarDef)) (vars : Vars) :
+    Except Err (List (Nat × Nat)) :=
+  ruleLoop (fun i op => depthFixed fuel op doc.frags (effectiveVars (defs.getD i []) vars)) limit filter 0 doc.ops
 
 /-! ### fuel: a computable potential that bounds every recursion on acyclic documents -/
 
